@@ -442,6 +442,7 @@ func runC19(c *Ctx) {
 	c.Clause("C19.4 error mapping on the server: too large → 431 + H3_EXCESSIVE_LOAD, QPACK failure → QPACK_DECOMPRESSION_FAILED, otherwise H3_MESSAGE_ERROR")
 	c.Clause("C19.5 Stream.Read marks the trailer section as consumed whether or not parsing it succeeds; DATA and HEADERS after trailers are errors")
 	c.Clause("C19.6 in the request and response writers no pseudo-header emission is reachable from a regular-field emission")
+	c.Clause("C19.7 the response writer tests the Trailer: prefix on the key as set by the handler, not on the lower-cased name")
 	c.NotCovered("httpguts predicates themselves; semantic equality of decoded fields")
 
 	c.rule("C19.1", func() { c19Parse(c) })
@@ -450,6 +451,7 @@ func runC19(c *Ctx) {
 	c.rule("C19.4", func() { c19ErrorMap(c) })
 	c.rule("C19.5", func() { c19TrailerOnce(c) })
 	c.rule("C19.6", func() { c19PseudoFirst(c) })
+	c.rule("C19.7", func() { c19TrailerPrefixBeforeLower(c) })
 }
 
 // callsParam: call of the function-typed parameter with the given name.
